@@ -206,9 +206,9 @@ package registry
 //@   axiom strip-unsafe: strip("unsafe") == "unsafe" -- instance of stripVendorPath/post:no-vendor (verified, functional)
 //@   axiom refs-typeparam-tuple: (isType(t, *types.TypeParam) || isType(t, *types.Tuple)) ==> forall((*types.Package)(p), !refs(t, p))
 //@   loop 1 invariant inv: piInv(m, imports) && i >= 0
-//@   loop 1 invariant {C01,C02,C10,C11} covered: (as(t, *types.Named).Obj().Pkg() != nil ==> cov(imports, as(t, *types.Named).Obj().Pkg())) && forall((*types.Package)(p), k, 0 <= k && k < i && refs(targs.At(k), p) ==> cov(imports, p))
+//@   loop 1 invariant {C01,C02,C10,C11} covered: (as(t, *types.Named).Obj().Pkg() != nil ==> cov(imports, as(t, *types.Named).Obj().Pkg())) && forall((*types.Package)(p), k, 0 <= k && k < i && refs(as(t, *types.Named).TypeArgs().At(k), p) ==> cov(imports, p))
 //@   loop 2 invariant inv: piInv(m, imports) && i >= 0
-//@   loop 2 invariant {C01,C02,C10,C11} covered: (as(t, *types.Alias).Obj().Pkg() != nil ==> cov(imports, as(t, *types.Alias).Obj().Pkg())) && forall((*types.Package)(p), k, 0 <= k && k < i && refs(targs.At(k), p) ==> cov(imports, p))
+//@   loop 2 invariant {C01,C02,C10,C11} covered: (as(t, *types.Alias).Obj().Pkg() != nil ==> cov(imports, as(t, *types.Alias).Obj().Pkg())) && forall((*types.Package)(p), k, 0 <= k && k < i && refs(as(t, *types.Alias).TypeArgs().At(k), p) ==> cov(imports, p))
 //@   loop 3 invariant inv: piInv(m, imports) && i >= 0
 //@   loop 3 invariant {C01,C02,C10,C11} covered: forall((*types.Package)(p), k, 0 <= k && k < i && refs(as(t, *types.Union).Term(k).Type(), p) ==> cov(imports, p))
 //@   loop 4 invariant inv: piInv(m, imports) && i >= 0
